@@ -219,26 +219,20 @@ func (m *multiStreamListener) Acquire() (StreamListener, error) {
 		}
 		m.ln = &TCPListener{ln}
 		m.acceptCh = make(chan acceptResponse)
-		go func() {
+		// The goroutine works on the listener and channel of this bind only: `m.ln` and
+		// `m.acceptCh` are replaced if the listener is acquired again after its last close.
+		go func(ln StreamListener, acceptCh chan acceptResponse) {
 			for {
-				vgate("Gtop")
-				m.mu.Lock()
-				ln := m.ln
-				m.mu.Unlock()
-
-				if ln == nil {
-					return
-				}
 				vgate("Gaccept")
 				conn, err := ln.AcceptStream()
 				if errors.Is(err, net.ErrClosed) {
-					close(m.acceptCh)
+					close(acceptCh)
 					return
 				}
 				vgate("Gsend")
-				m.acceptCh <- acceptResponse{conn, err}
+				acceptCh <- acceptResponse{conn, err}
 			}
-		}()
+		}(m.ln, m.acceptCh)
 	}
 
 	m.count++
@@ -249,20 +243,27 @@ func (m *multiStreamListener) Acquire() (StreamListener, error) {
 		onCloseFunc: func() error {
 			vgate("C2")
 			m.mu.Lock()
-			defer m.mu.Unlock()
 			m.count--
-			if m.count == 0 {
+			last := m.count == 0
+			if last {
 				m.ln.Close()
 				m.ln = nil
-				if m.onCloseFunc != nil {
-					onCloseFunc := m.onCloseFunc
-					m.onCloseFunc = nil
-					return onCloseFunc()
-				}
+			}
+			m.mu.Unlock()
+			// The callback takes the manager's lock, so it must not run under `m.mu`:
+			// the manager calls Acquire (which takes `m.mu`) while holding its lock.
+			if last && m.onCloseFunc != nil {
+				return m.onCloseFunc()
 			}
 			return nil
 		},
 	}, nil
+}
+
+func (m *multiStreamListener) inUse() bool {
+	m.mu.Lock()
+	defer m.mu.Unlock()
+	return m.count > 0
 }
 
 type multiPacketListener struct {
@@ -296,26 +297,28 @@ func (m *multiPacketListener) Acquire() (net.PacketConn, error) {
 		m.pc = pc
 		m.readCh = make(chan readRequest)
 		m.doneCh = make(chan struct{})
-		go func() {
+		// The goroutine works on the connection and channels of this bind only: the fields
+		// are replaced if the listener is acquired again after its last close.
+		go func(pc net.PacketConn, readCh chan readRequest, doneCh chan struct{}) {
 			buffer := make([]byte, serverUDPBufferSize)
 			for {
 				vgate("Pread")
-				n, addr, err := m.pc.ReadFrom(buffer)
+				n, addr, err := pc.ReadFrom(buffer)
 				pkt := buffer[:n]
 				vgate("Psel")
 				select {
-				case req := <-m.readCh:
+				case req := <-readCh:
 					n := copy(req.buffer, pkt)
 					req.respCh <- struct {
 						n    int
 						addr net.Addr
 						err  error
 					}{n, addr, err}
-				case <-m.doneCh:
+				case <-doneCh:
 					return
 				}
 			}
-		}()
+		}(m.pc, m.readCh, m.doneCh)
 	}
 
 	m.count++
@@ -326,20 +329,27 @@ func (m *multiPacketListener) Acquire() (net.PacketConn, error) {
 		onCloseFunc: func() error {
 			vgate("C2")
 			m.mu.Lock()
-			defer m.mu.Unlock()
 			m.count--
-			if m.count == 0 {
+			last := m.count == 0
+			if last {
 				close(m.doneCh)
 				m.pc.Close()
-				if m.onCloseFunc != nil {
-					onCloseFunc := m.onCloseFunc
-					m.onCloseFunc = nil
-					return onCloseFunc()
-				}
+				m.pc = nil
+			}
+			m.mu.Unlock()
+			// See multiStreamListener: the callback must not run under `m.mu`.
+			if last && m.onCloseFunc != nil {
+				return m.onCloseFunc()
 			}
 			return nil
 		},
 	}, nil
+}
+
+func (m *multiPacketListener) inUse() bool {
+	m.mu.Lock()
+	defer m.mu.Unlock()
+	return m.count > 0
 }
 
 // ListenerManager holds the state of shared listeners.
@@ -377,8 +387,11 @@ func (m *listenerManager) ListenStream(addr string) (StreamListener, error) {
 			func() error {
 				vgate("C4")
 				m.mu.Lock()
-				delete(m.streamListeners, addr)
-				m.mu.Unlock()
+				defer m.mu.Unlock()
+				// The listener may have been acquired again since its last user closed it.
+				if cur, ok := m.streamListeners[addr]; ok && cur == streamLn && !streamLn.(*multiStreamListener).inUse() {
+					delete(m.streamListeners, addr)
+				}
 				return nil
 			},
 		)
@@ -403,8 +416,11 @@ func (m *listenerManager) ListenPacket(addr string) (net.PacketConn, error) {
 			func() error {
 				vgate("C4")
 				m.mu.Lock()
-				delete(m.packetListeners, addr)
-				m.mu.Unlock()
+				defer m.mu.Unlock()
+				// The listener may have been acquired again since its last user closed it.
+				if cur, ok := m.packetListeners[addr]; ok && cur == packetLn && !packetLn.(*multiPacketListener).inUse() {
+					delete(m.packetListeners, addr)
+				}
 				return nil
 			},
 		)
